@@ -1,7 +1,7 @@
 (** C10 — SNI extraction (proxy/tcp/tls_clienthello.go, sni_proxy.go:45-73).
     This file contains only statements, [exact], and [Print Assumptions]. *)
 From Coq Require Import String List NArith.
-From Fabio Require Import Lib.Outcome Lib.Bytes Model.ClientHello Proofs.ClientHello.
+From Fabio Require Import Lib.Outcome Lib.Bytes Model.ClientHello Proofs.ClientHello Model.SniServe Proofs.SniServe.
 Import ListNotations.
 Local Open Scope N_scope.
 
@@ -234,3 +234,59 @@ Theorem C10_long_session_id_rejected : forall (d : str) (sl : N) (n : str),
   idx d 38 = Ok sl -> (32 < sl)%N -> read_server_name d <> Ok n.
 Proof. exact long_session_id_rejected. Qed.
 Print Assumptions C10_long_session_id_rejected.
+
+(* ============ the decision of SNIProxy.ServeTCP itself (Model/SniServe.v) ============ *)
+(* ServeTCP runs on a bare goroutine of tcp.Server without recover: a panic anywhere between
+   Peek and Lookup - not only inside the parser - ends the process.  The whole decision, the
+   "unable to parse" and "server_name missing" branches included, is total on every stream ... *)
+Theorem C10_sni_serve_never_panics : forall stream, sni_serve stream <> Panic.
+Proof. exact sni_serve_never_panics. Qed.
+Print Assumptions C10_sni_serve_never_panics.
+
+Theorem C10_sni_serve_decides : forall stream,
+  sni_serve stream = Ok Dropped \/ exists n h, sni_serve stream = Ok (Routed n h).
+Proof. exact sni_serve_decides. Qed.
+Print Assumptions C10_sni_serve_decides.
+
+(* ... it routes exactly the streams of C10_sni_route_exact whose name is not empty, on that name,
+   with that many bytes buffered (so the soundness / truncation / bound theorems above speak
+   about ServeTCP's decision) ... *)
+Theorem C10_sni_serve_routed_iff : forall s n h,
+  sni_serve s = Ok (Routed n h) <-> sni_route_name s = Ok (n, h) /\ h <> [].
+Proof. exact sni_serve_routed_iff. Qed.
+Print Assumptions C10_sni_serve_routed_iff.
+
+Theorem C10_sni_serve_bound : forall s n h,
+  sni_serve s = Ok (Routed n h) ->
+  exists rl, u16 s 3 = Ok rl /\ 10 <= n /\ n <= rl + 5 /\ n <= 16389 /\ n <= nlen s.
+Proof. exact sni_serve_bound. Qed.
+Print Assumptions C10_sni_serve_bound.
+
+(* ... and everything too small to be a ClientHello is REJECTED, not crashed on: a stream of
+   fewer than 47 bytes (record header 5 + handshake header 4 + the smallest hello body 38: every
+   truncation of every tiny record), and a stream whose handshake header announces a body of
+   fewer than 38 bytes, whatever the record length, whatever follows, wherever it is cut. *)
+Theorem C10_short_stream_dropped : forall s,
+  nlen s < 9 + min_hello_body -> sni_serve s = Ok Dropped.
+Proof. exact sni_serve_short_stream_dropped. Qed.
+Print Assumptions C10_short_stream_dropped.
+
+Theorem C10_short_hello_dropped : forall s hl,
+  u24 s 6 = Ok hl -> hl < min_hello_body -> sni_serve s = Ok Dropped.
+Proof. exact sni_serve_short_hello_dropped. Qed.
+Print Assumptions C10_short_hello_dropped.
+
+(* non-vacuity: 16 03 01 00 05 01 00 00 01 00 passes the size function (the parser is reached with
+   a 5-byte message), meets the hypotheses of both theorems and is dropped; ex_hello is routed *)
+Theorem C10_tiny_hello_nonvacuous :
+  client_hello_buffer_size (firstn 9 tiny_hello) = Ok 10 /\
+  u24 tiny_hello 6 = Ok 1 /\ 1 < min_hello_body /\ nlen tiny_hello < 9 + min_hello_body /\
+  sni_serve tiny_hello = Ok Dropped.
+Proof. exact tiny_hello_dropped. Qed.
+Print Assumptions C10_tiny_hello_nonvacuous.
+
+Theorem C10_sni_serve_nonvacuous :
+  sni_serve (enc_record 3 1 ex_hello ++ [23; 3; 3])
+  = Ok (Routed (nlen (enc_record 3 1 ex_hello)) (bs "foo.com"%string)).
+Proof. exact ex_hello_served. Qed.
+Print Assumptions C10_sni_serve_nonvacuous.
